@@ -801,6 +801,20 @@ class Fn9(FnTranslator):
             if not (isinstance(oty, tuple) and oty[0] == 'obj'):
                 raise Refuse('nested store into %r' % (oty,))
             oc = self.mod.class_by_rec(oty[1])
+            if tgt.attr in oc.props:
+                st = self.mod.funcs.get((oc.pyname, tgt.attr + '@setter'))
+                if st is None:
+                    raise Refuse('assignment through property %s.%s whose setter is not translated' % (oc.pyname, tgt.attr))
+                if [t for _, t in st.params] != [val.ty]:
+                    raise Refuse('setter argument type')
+                onm0 = 'self_' + tgt.value.attr
+                code0 = '%s %s%s %s' % (st.gname, 'Orc ' if st.oracle else '', onm0, val.code)
+                self.need_monad(val.binds, monadic, tgt)
+                if st.fallible:
+                    self.fallible = True
+                    self.need_monad([1], monadic, tgt)
+                    return self.wrap(val.binds, '%s <- %s ;;\n%s' % (onm0, code0, cont(env)), monadic)
+                return self.wrap(val.binds, 'let %s := %s in\n%s' % (onm0, code0, cont(env)), monadic)
             fld = oc.props.get(tgt.attr, tgt.attr)
             if oc.ftype(fld) != val.ty:
                 raise Refuse('store into %s.%s of %r' % (oc.pyname, fld, val.ty))
@@ -1386,13 +1400,29 @@ class Module9:
             if relpath not in trees:
                 trees[relpath] = self.load(relpath)
             tree = trees[relpath]
+            setter = False
             if '.' in fs.qual:
                 cname, fname = fs.qual.split('.')
+                if fname.endswith('@setter'):
+                    fname, setter = fname[:-len('@setter')], True
                 cdefs = [n for n in tree.body if isinstance(n, ast.ClassDef) and n.name == cname]
                 if not cdefs:
                     raise Refuse('class %s not found in %s' % (cname, relpath))
-                fdefs = [n for n in cdefs[0].body if isinstance(n, ast.FunctionDef) and n.name == fname]
+
+                def is_setter(n):
+                    return any(isinstance(d, ast.Attribute) and d.attr == 'setter' and isinstance(d.value, ast.Name)
+                               and d.value.id == n.name for d in n.decorator_list)
+                fdefs = [n for n in cdefs[0].body if isinstance(n, ast.FunctionDef) and n.name == fname and is_setter(n) == setter]
                 fs.cls = self.classes[cname]
+                # every declared property must have the trivial getter `return self.<field>` and, if the class has a
+                # setter for it, that setter must be translated (assignments through the property call it)
+                for prop, fld in fs.cls.props.items():
+                    getters = [n for n in cdefs[0].body if isinstance(n, ast.FunctionDef) and n.name == prop and not is_setter(n)]
+                    ok = len(getters) == 1 and len(getters[0].body) == 1 and isinstance(getters[0].body[0], ast.Return) and \
+                        isinstance(getters[0].body[0].value, ast.Attribute) and getters[0].body[0].value.attr == fld and \
+                        isinstance(getters[0].body[0].value.value, ast.Name) and getters[0].body[0].value.value.id == 'self'
+                    if not ok:
+                        raise Refuse('property %s.%s is not the plain getter of %s' % (cname, prop, fld))
             else:
                 cname, fname = '', fs.qual
                 fdefs = [n for n in tree.body if isinstance(n, ast.FunctionDef) and n.name == fname]
@@ -1400,7 +1430,7 @@ class Module9:
                 raise Refuse('function %s not found (or ambiguous) in %s' % (fs.qual, relpath))
             fd = fdefs[0]
             decos = [d.id for d in fd.decorator_list if isinstance(d, ast.Name)]
-            if len(decos) != len(fd.decorator_list):
+            if len(decos) + (1 if setter else 0) != len(fd.decorator_list):
                 raise Refuse('decorator on %s' % fs.qual)
             argnames = [a.arg for a in fd.args.args]
             if cname:
@@ -1430,7 +1460,7 @@ class Module9:
             fs.oracle = self.oracle
             if fs.kind == 'guard' and not cname:
                 raise Refuse('guard must be a method')
-            self.funcs[(cname, fname)] = fs
+            self.funcs[(cname, fname + ('@setter' if setter else ''))] = fs
             ft = Fn9(self, fd, fs)
             code, monadic = ft.translate()
             fs.fallible = monadic
